@@ -221,13 +221,17 @@ func Instantiate(id, origin string, sh Shape, r *rand.Rand) *Case {
 			main.add(" " + src)
 			c.Collide = c.Collide || col
 		}
-		out.WriteString(main.template(".main"))
-		// call targets (only as many as some caller may use)
+		// call targets first (only as many as some caller may use), the entry template last, so
+		// that the first and the last template of every file carry a message
 		for k := 1; k <= fan && sh.NF > 1; k++ {
 			h := &body{used: map[string]bool{}}
 			h.add(fmt.Sprintf("[%s.h%d {$s}]", ns, k))
+			if k == 1 && fs.Msg != "none" {
+				h.add(` {msg desc="h"}{$s} in {$s.x}{/msg}`)
+			}
 			out.WriteString(h.template(fmt.Sprintf(".h%d", k)))
 		}
+		out.WriteString(main.template(".main"))
 		good[i] = out.String()
 		full[i] = good[i]
 		switch fs.Err {
